@@ -82,8 +82,11 @@ REGISTRY = {
                 trusted=['% conversions carry their value']),
     'C19': dict(module='contracts.C19', level='other',
                 native=native_sweep('c19_format.py', 'run-time contract of format_float over a boundary lattice (43 decades x 2 signs x use_e x rounding-boundary mantissas) and read-back of complete reports of electrically tiny and ordinary antennas', 20, 3000),
-                undecided=[],
-                trusted=['% conversions render within their class: %d of an int exactly, %g with six significant digits']),
+                undecided=['float64 effects inside format_float (the quotient log|f|/log 10 at exact powers of ten, binary rounding of the % conversion): native lattice only'],
+                trusted=['% conversions render within their class: %d of an int exactly, %g with six significant digits',
+                         "rendering axiom of '% .Nf' % x and '% e' % x: the digits are an integer M with |M - |x|*10^N| <= 1/2 (resp. a 7-digit mantissa with the decade's exponent); sign character '-' iff x < 0",
+                         'real logarithm: d <= log|f|/log 10 < d+1 on the decade [10^d, 10^(d+1)), equality only at 10^d',
+                         'Python string operations on digit strings as implemented in pyvc/digits.py (slices, rstrip, strip, startswith, in, +, %-9s, ==)']),
     'C14': dict(module='contracts.C14', level='proof',
                 native=native_sweep('c14_history.py', 'sweep step == fresh run (every load kind, radii at the small-radius threshold), far/near order and repetition, compute twice, two processes with different hash seeds byte-identical (report and option file)', 12, 300),
                 undecided=['byte-identity of numpy/LAPACK/scipy results across processes is assumed (deterministic library functions)'],
